@@ -513,6 +513,77 @@ def convert_glue(ctx, pairs_by_in, cterm, cfgs):
     return n_eval, failing
 
 
+def bytes_convert_glue(ctx, cterm, cfgs):
+    """convert(b, T) for b: Bytes[N] (memory operand; not in the template families): the result must be conv_spec of
+    bytes<len> for the ACTUAL length (sign taken from the first byte), whatever the padding after the data is."""
+    rnd = ctx.rng("bytesconv")
+    N_ = lambda k, s: ("num", k, s, False)  # noqa: E731
+    outs_all = [N_(32, False), N_(32, True), N_(1, True), N_(1, False), N_(16, True), ("num", 21, True, True), ("bool",),
+                ("addr",), ("bytes", 32), ("bytes", 4)]
+    groups = {}
+    n_eval = 0
+    for cfg in cfgs:
+        chain = Chain(cfg.evm)
+        for n in (1, 4, 20, 32):
+            outs = [ko for ko in outs_all if not (ko[0] == "bytes" and ko[1] < n)]
+            src = ""
+            for j, ko in enumerate(outs):
+                src += f"@external\ndef c{j}(b: Bytes[{n}]) -> {c_src_name(ko)}:\n    return convert(b, {c_src_name(ko)})\n\n"
+            try:
+                out = compile_src(src, cfg, formats=("bytecode", "method_identifiers"))
+            except Exception as e:  # noqa
+                ctx.violation("correspondence-broken", f"Bytes convert probe does not compile under {cfg.name}",
+                              {"source": src, "config": cfg.name, "error": f"{type(e).__name__}: {e}"[:600]})
+                continue
+            addr = chain.deploy(bytes.fromhex(out["bytecode"][2:]))
+            sels = {sig.split("(")[0]: int(h, 16).to_bytes(4, "big") for sig, h in out["method_identifiers"].items()}
+            key = ("cases", n)
+            if key not in groups:
+                cs = []
+                for ln in sorted({0, 1, n // 2, n - 1, n} - {-1}):
+                    for pat in (b"\x00", b"\xff", b"\x80", b"\x7f", None):
+                        data = (pat * ln) if pat else bytes(rnd.randrange(256) for _ in range(ln))
+                        if ln and pat == b"\x00":
+                            data = b"\x00" * (ln - 1) + b"\x01"
+                        for dirty in (False, True):
+                            cs.append((ln, data, dirty))
+                groups[key] = cs
+            cs = groups[key]
+            for j, ko in enumerate(outs):
+                obs = []
+                for ln, data, dirty in cs:
+                    pad = (b"\xee" if dirty else b"\x00") * ((32 - ln % 32) % 32 if ln else 0)
+                    cd = sels[f"c{j}"] + word(32) + word(ln) + data + pad
+                    obs.append(call_word(chain, addr, cd))
+                n_eval += len(obs)
+                g = groups.setdefault((n, ko), {"runs": []})
+                g["runs"].append((cfg, obs, src, j))
+    keys = [k for k in groups if k[0] != "cases"]
+    rows = []
+    for n, ko in keys:
+        cs = groups[("cases", n)]
+        pl = "[" + "; ".join(f"({ln}, {X.zl(int.from_bytes(data, 'big') if ln else 0)})" for ln, data, _ in cs) + "]"
+        rows.append({"spec": f"map (fun p => oc (c_enc_out {cterm[ko]} (if fst p =? 0 then conv_spec (CBytes 1) {cterm[ko]} 0 "
+                             f"else conv_spec (CBytes (fst p)) {cterm[ko]} (snd p)))) {pl}",
+                     "multi": [r[1] for r in groups[(n, ko)]["runs"]]})
+    res = compare_rows(CONV_PRELUDE, rows, "c03bytesconv", shard=40)
+    failing = []
+    for (n, ko), (sm, _) in zip(keys, res):
+        seen = set()
+        for i, e, m in sm:
+            if m in seen:
+                continue
+            seen.add(m)
+            cfg, obs, src, j = groups[(n, ko)]["runs"][m]
+            ln, data, dirty = groups[("cases", n)][i]
+            failing.append({"convert": f"Bytes[{n}] -> {c_src_name(ko)}", "function": f"c{j}", "config": cfg.name,
+                            "bytes": "0x" + data.hex(), "length": ln, "dirty_padding": dirty,
+                            "expected": "revert" if e == -1 else hex(e),
+                            "observed": "revert" if obs[i] == -1 else hex(obs[i]), "source": src})
+    ctx.corr["bytes_convert_glue_cases"] = n_eval
+    return n_eval, failing
+
+
 def choose_convert_pairs(ctx, allowed, tier):
     """{key_in: [key_out...]} : boundary in-types x a seeded sample of allowed out-types"""
     rnd = ctx.rng("convpairs")
@@ -696,6 +767,13 @@ def mismatching_unsafes(kind):
         return None
 
 
+# exact (checked) builtins on the 256-bit types, probed with the same machinery: name -> (type key, source, Coq result)
+EXTRA_BUILTINS = {
+    "Xabs": ((32, True, False), "abs(x)", "fun x y => if x =? MINS then -1 else wrap (Z.abs x)"),
+    "Xnot": ((32, False, False), "~x", "fun x y => wrap (W - 1 - x)"),
+    "Xaddmod": ((32, False, False), "uint256_addmod(x, x, y)", "fun x y => if y =? 0 then -1 else (x + x) mod y"),
+    "Xmulmod": ((32, False, False), "uint256_mulmod(x, x, y)", "fun x y => if y =? 0 then -1 else (x * x) mod y"),
+}
 UNSAFE_SRC = {"UAdd": "unsafe_add(x, y)", "USub": "unsafe_sub(x, y)", "UMul": "unsafe_mul(x, y)", "UDiv": "unsafe_div(x, y)",
               "UAnd": "x & y", "UOr": "x | y", "UXor": "x ^ y", "UShl": "x << y", "UShr": "x >> y", "UPowMod": "pow_mod256(x, y)"}
 
@@ -712,11 +790,12 @@ def unsafe_glue(ctx, tys, cfgs):
         for ty in tys:
             t = tyname(ty)
             ops = ["UAdd", "USub", "UMul", "UDiv", "UAnd", "UOr", "UXor"] + (["UShl", "UShr"] if ty[0] == 32 else []) + \
-                  (["UPowMod"] if ty[0] == 32 and not ty[1] else [])
+                  (["UPowMod"] if ty[0] == 32 and not ty[1] else []) + [k for k, v in EXTRA_BUILTINS.items() if v[0] == ty]
             src = ""
             for uop in ops:
                 yt = "uint256" if uop in ("UShl", "UShr") else t
-                src += f"@external\ndef f{uop}(x: {t}, y: {yt}) -> {t}:\n    return {UNSAFE_SRC[uop]}\n\n"
+                expr = EXTRA_BUILTINS[uop][1] if uop in EXTRA_BUILTINS else UNSAFE_SRC[uop]
+                src += f"@external\ndef f{uop}(x: {t}, y: {yt}) -> {t}:\n    return {expr}\n\n"
             try:
                 out = compile_src(src, cfg, formats=("bytecode", "method_identifiers"))
             except Exception as e:  # noqa
@@ -727,12 +806,15 @@ def unsafe_glue(ctx, tys, cfgs):
             sels = {sig.split("(")[0]: int(h, 16).to_bytes(4, "big") for sig, h in out["method_identifiers"].items()}
             for uop in ops:
                 if (ty, uop) not in cases:
-                    cases[(ty, uop)] = unsafe_cases(uop, ty, rnd, 7)
+                    cases[(ty, uop)] = unsafe_cases(uop, ty, rnd, 7) if uop not in EXTRA_BUILTINS else \
+                        [(x, y) for x in type_grid(ty, rnd, 9) for y in (0, 1, 2, 7, 2**255, 2**256 - 1)]
                 cs = cases[(ty, uop)]
                 datas = [sels[f"f{uop}"] + word(x) + word(y) for x, y in cs]
                 obs = [call_word(chain, addr, dt) for dt in datas]
                 n_eval += len(cs)
-                g = groups.setdefault((ty, uop), {"spec": f"uspec_row {X.nty(*ty)} {uop} {plist(cs)}", "cs": cs, "runs": []})
+                spec = (f"map (fun p => ({EXTRA_BUILTINS[uop][2]}) (fst p) (snd p)) {plist(cs)}" if uop in EXTRA_BUILTINS
+                        else f"uspec_row {X.nty(*ty)} {uop} {plist(cs)}")
+                g = groups.setdefault((ty, uop), {"spec": spec, "cs": cs, "runs": []})
                 g["runs"].append((cfg, obs, datas, src))
     keys = list(groups)
     rows = [{"spec": groups[k]["spec"], "multi": [r[1] for r in groups[k]["runs"]]} for k in keys]
@@ -746,8 +828,9 @@ def unsafe_glue(ctx, tys, cfgs):
             seen.add(m)
             cfg, obs, datas, src = groups[(ty, uop)]["runs"][m]
             cs = groups[(ty, uop)]["cs"]
-            failing.append({"type": tyname(ty), "operation": UNSAFE_SRC[uop], "config": cfg.name,
-                            "args": [str(cs[i][0]), str(cs[i][1])], "expected": hex(e),
+            failing.append({"type": tyname(ty), "operation": EXTRA_BUILTINS[uop][1] if uop in EXTRA_BUILTINS else UNSAFE_SRC[uop],
+                            "config": cfg.name,
+                            "args": [str(cs[i][0]), str(cs[i][1])], "expected": "revert" if e == -1 else hex(e),
                             "observed": "revert" if obs[i] == -1 else hex(obs[i]), "calldata": datas[i].hex(), "source": src})
     ctx.corr["unsafe_glue_cases"] = n_eval
     return n_eval, failing
@@ -1075,7 +1158,7 @@ def run(ctx):
     total += n
     for f in ufail[:8]:
         found = True
-        ctx.violation("failing-input", f"{f['operation']} on {f['type']} under {f['config']} does not wrap exactly", f,
+        ctx.violation("failing-input", f"{f['operation']} on {f['type']} under {f['config']} is not exact / does not wrap exactly", f,
                       key=f"unchecked-glue:{f['operation']}:{f['type']}:{f['config']}")
     ctx.log(f"unchecked-ops differentials done {time.time()-t0:.0f}s")
 
@@ -1149,6 +1232,12 @@ def run(ctx):
         n, cfail = convert_glue(ctx, pairs_by_in, cterm, quick_glue_configs() if ctx.tier == "quick" else configs("quick"))
         total += n
         for f in cfail[:8]:
+            found = True
+            ctx.violation("failing-input", f"convert {f['convert']} under {f['config']} is not exact-or-revert", f,
+                          key=f"convert-glue:{f['convert']}:{f['config']}")
+        n, bfail = bytes_convert_glue(ctx, cterm, quick_glue_configs() if ctx.tier == "quick" else configs("quick"))
+        total += n
+        for f in bfail[:8]:
             found = True
             ctx.violation("failing-input", f"convert {f['convert']} under {f['config']} is not exact-or-revert", f,
                           key=f"convert-glue:{f['convert']}:{f['config']}")
